@@ -124,8 +124,10 @@ class Ref:
                     kk = key.strip()
                     kk = int(kk) if kk.isdecimal() and int(kk) > 0 else WS.sub(" ", kk)
                     ht[kk] = val.strip()                       # named: key and value trimmed; later duplicates win
+            if name not in self.lib and (name[:1].upper() + name[1:]) in self.lib:
+                name = name[:1].upper() + name[1:]             # the first letter of a title is case-insensitive
             if name not in self.lib:
-                return "[[:Template:" + name + "]]"            # missing template: link to the template page
+                return "[[:Template:" + n[1].strip() + "]]"    # missing template: link to the template page
             t = self.ex(self.lib[name], ht)
             return add_newline(t)
         raise AssertionError(n)
@@ -183,6 +185,7 @@ FIXED_LIB = {
     "two": ("seq", [("param", "2", T("-")), T("/"), ("param", "1", T("-"))]),
     # list / table markers that are NOT at the start of the expansion must not attract the automatic newline
     "pair": ("seq", [("param", "k", T("")), T("="), ("param", "v", T(""))]),
+    "IoWrap": ("seq", [T("{"), ("param", "1", T("")), T("}")]), "Plainname": T("PN"),
     "tbl": T("t {| c |} ; x : y # z * w"), "tbl0": T("{| c |}"), "wrap": ("seq", [T("<i>"), ("param", "1", T("")), T("</i>")]),
 }
 FIXED_PAGES = []
@@ -204,6 +207,9 @@ def _nest(d):
 
 
 FIXED_PAGES += [_nest(d) for d in (1, 2, 3, 4)]
+# first letter case-insensitive, the rest of the name exact
+FIXED_PAGES += [("call", "ioWrap", [(None, T("v"))]), ("call", "plainName", []), ("call", "plainname", []),
+                ("if", T("1"), ("call", "ioWrap", [(None, T("w"))]), T("e"))]
 FIXED_PAGES += [("call", "pair", [("k", T("x")), ("v", ("if", T("1"), _nest(2), T("e")))])]
 nlib = 40 if tier == "quick" else 300
 npage = 40 if tier == "quick" else 80
@@ -248,6 +254,24 @@ for li in range(-1, nlib):
         samples.append({"library": {k: src(v) for k, v in lib.items()}, "page": text})
     ctx.close_db_conn()
 
+# ---- a template that is added after a page found it missing is used by the next expansion
+cL = new_ctx({"a": "A"})
+cL.start_page("Tt")
+with quiet_stdout():
+    first = cL.expand("{{late|x}} {{a}}")
+cL.add_page("Template:late", 10, "L{{{1}}}")
+cL.start_page("Tt2")
+with quiet_stdout():
+    second = cL.expand("{{late|x}} {{a}}")
+cL.add_page("Template:late", 10, "M{{{1}}}")
+with quiet_stdout():
+    third = cL.expand("{{late|x}}")
+evaluations += 3
+if first != "[[:Template:late]] A" or second != "Lx A" or third != "Mx":
+    fail("core:Wtp.expand#equals-reference-transclusion", f"template added after it was found missing: {first!r}, then {second!r}, "
+         f"then (overwritten) {third!r}", {"history": "expand {{late|x}}; add_page Template:late; expand; overwrite; expand"},
+         "stale-lookup")
+cL.close_db_conn()
 # ---- includable part of a template body (add_page -> _template_to_body), all tag strings up to a length
 TAGS = ["a", "<noinclude>", "</noinclude>", "<includeonly>", "</includeonly>", "<onlyinclude>", "</onlyinclude>",
         "<!--", "-->", "b"]
